@@ -97,7 +97,8 @@ type WorldCfg struct {
 	EpochMs     int64     `json:"epochMs"`
 	ParkWrites  bool      `json:"parkWrites,omitempty"`
 	ParkBody    bool      `json:"parkBody,omitempty"`
-	SharedSP    bool      `json:"sharedSP,omitempty"` // storage hands out one shared *ServiceProvider per registration
+	SharedSP    bool      `json:"sharedSP,omitempty"`   // storage hands out one shared *ServiceProvider per registration
+	NilUnknown  bool      `json:"nilUnknown,omitempty"` // storage flavour: an unknown entity is reported as (nil, nil) instead of an error
 	Presessions []Preseed `json:"presessions,omitempty"`
 }
 
@@ -228,7 +229,7 @@ type MsgSpec struct {
 }
 
 type Step struct {
-	K string `json:"k"` // send | resume | pair | advance | mutate | restart | heal | drain
+	K string `json:"k"` // send | resume | finish | until | pair | advance | mutate | restart | heal | drain
 
 	Msg *MsgSpec `json:"msg,omitempty"`
 
@@ -236,6 +237,7 @@ type Step struct {
 	Pick2 int    `json:"pick2,omitempty"`
 	ByID  bool   `json:"byID,omitempty"` // Pick names a task id instead of an index into the parked set
 	Fault string `json:"fault,omitempty"`
+	Op    string `json:"op,omitempty"` // until: the storage operation at whose entry the task is left parked
 
 	Ns int64 `json:"ns,omitempty"`
 
